@@ -13,6 +13,12 @@ CLAIMED = {
         note="Trusted: Lean kernel; axioms propext/Classical.choice/Quot.sound only; hand-written model of u128/u64/u8::from_str_radix and format! (validated differentially, not proved against rustc's libcore); harness + python oracle. "
              "A leading '+' in a field is accepted by Rust and by the model; the property text does not decide it and the oracle accepts either.",
         design="§4 C12"),
+    "C20": dict(
+        technique="Lean 4 theorems over try_report's loop for an arbitrary size function (termination by well-founded definition, partition, size bound, only-oversize-skipped) + byte-exact differential run of the real JaegerReporter over loopback UDP + independent python Thrift decoder as oracle",
+        text="Kernel-checked theorems about the model of JaegerReporter::try_report for every batch, every size function and every limit: outputs partition the batch in order (C20_partition), every datagram is below the limit (C20_sizes, C20_real_sizes with the regenerated MAX_UDP_PACKAGE_SIZE <= 8000), only spans that do not fit alone are skipped (C20_skipped_only_oversize, C20_fitting_never_skipped), the loop terminates (accepted well-founded definition). "
+             "Tie: the real reporter sends to a loopback socket; its datagrams must equal the model's byte for byte on batches straddling the limit, and an independent decoder checks size/partition/order on the real bytes; every skipped span is re-sent alone to confirm it does not fit.",
+        note="Trusted: Lean kernel; hand-written model of thrift_codec's compact encoding (compared byte-for-byte, not proved); loopback UDP delivery; send_to/serialize assumed not to fail.",
+        design="§4 C20"),
 }
 
 REASON_PENDING = "not claimed yet in this revision: model/harness slice for this property is still being built (see DESIGN.md §6 work order)"
